@@ -452,7 +452,7 @@ func tierBudget(prop, tier string) float64 {
 	if prop == "C14" {
 		return 40
 	}
-	return 20
+	return 30
 }
 
 func cmdRun(args []string) {
